@@ -128,7 +128,8 @@ def main(argv):
     try:
         reports = {}
         with concurrent.futures.ThreadPoolExecutor(max_workers=jobs) as ex:
-            futs = {ex.submit(run_function, cfg["modules"], fid, timeout_ms, opts, cfg.get("split", {}).get(fid, 1)): fid for fid in cfg["functions"]}
+            fmods = cfg.get("function_modules", {})
+            futs = {ex.submit(run_function, fmods.get(fid, cfg["modules"]), fid, timeout_ms, opts, cfg.get("split", {}).get(fid, 1)): fid for fid in cfg["functions"]}
             for fu in concurrent.futures.as_completed(futs):
                 reports[futs[fu]] = fu.result()
         # helper-contract drift: a failing H-level contract is retried with the helper inlined in its users
@@ -138,7 +139,7 @@ def main(argv):
             users = [fid for fid, r in reports.items() if set(r.get("used_contracts", [])) & set(failed_h)]
             o2 = dict(opts, inline=failed_h)
             with concurrent.futures.ThreadPoolExecutor(max_workers=jobs) as ex:
-                futs = {ex.submit(run_function, cfg["modules"], fid, timeout_ms, o2, cfg.get("split", {}).get(fid, 1)): fid for fid in users}
+                futs = {ex.submit(run_function, cfg.get("function_modules", {}).get(fid, cfg["modules"]), fid, timeout_ms, o2, cfg.get("split", {}).get(fid, 1)): fid for fid in users}
                 for fu in concurrent.futures.as_completed(futs):
                     reports[futs[fu]] = fu.result()
             for h in failed_h:
@@ -223,7 +224,7 @@ def finish(pid, tier, seed, cfg, reports, drift, extra, t0):
             rp = {"property": pid, "function": fid, "obligation": o["name"], "clause": o.get("clause"), "kind": o.get("kind"),
                   "solver": {"backend": o.get("backend"), "verdict": "sat (counter-model)" if o.get("model") is not None else "sat", "reason": o.get("reason"), "goal": o.get("goal")},
                   "counter_model": o.get("model"), "repo": REPO, "custom_replay": o.get("custom_replay"),
-                  "exit_kind": o.get("kind"), "modules": cfg.get("modules"), "replay_ctx": (reports.get(fid) or {}).get("replay_ctx"),
+                  "exit_kind": o.get("kind"), "modules": cfg.get("function_modules", {}).get(fid, cfg.get("modules")), "replay_ctx": (reports.get(fid) or {}).get("replay_ctx"),
                   "same_clause_fails_on_paths": [x["name"] for x in obs if x is not o]}
             with open(os.path.join(HERE, path), "w") as f:
                 json.dump(rp, f, indent=1)
